@@ -60,6 +60,11 @@ CLAIMED = {
         "Static: at each container level each of the three operations calls the same-named operation exactly once on every element, in order, with its own parameters forwarded unchanged, skips rests (None) and leaves beats, values and rests untouched; Note.transpose renames through intervals.from_shorthand(old name, interval, up) and adjusts the octave by +1 exactly when going up and the renamed note compares lower than the note saved before the rename, by -1 exactly when going down and it compares higher; change_octave never yields a negative octave and equals octave + diff otherwise; Note.augment/diminish change the name by one semitone and keep the letter.",
         "Semitone exactness of the renamed note is C03's; that the octave fix-up is right for every spelling is a numeric fact not decided here. Trusted: CPython ast, abstract evaluator (variants/c11.py), C01/C03 summaries.",
         "DESIGN.md section 2, C11"),
+    "C12": (
+        "writer-discipline (typestate) evaluation of NoteContainer.add_note on abstract containers: membership test fails on every element -> append -> sort before return; who-may-write enumeration of self.notes; decision tables of octave inference, polymorphic add/remove dispatch and the removal predicate; call-sequence checks of the shorthand constructors; pair-enumeration check of the consonance test",
+        "Static: on every path of add_note a note is stored only after comparing unequal (pitch equality) to every stored note and the list is sorted again before returning, no other method writes self.notes outside the enumerated writers => sorted and duplicate-free after every add/remove by induction; bare names get octave 4 when empty, else the top note's octave (+1 exactly when the candidate would lie below the top note); add_notes/remove_notes/+/- dispatch each input form to the right single-note calls; removal by name keeps exactly the notes whose name differs or whose octave differs when one is given, removal by Note is by pitch; the shorthand constructors empty the container first and add the core result; _consonance_test visits every unordered pair once and stops at the first failure, the four predicates bind the right core predicate and flag; len/in/[]/== follow the content.",
+        "The invariant over arbitrary histories is an induction over the checked writers, not an exploration. Trusted: CPython ast, abstract evaluator (variants/c12.py), C10 (Note ordering/equality by int()).",
+        "DESIGN.md section 2, C12"),
     "C06": (
         "offset-domain abstract interpretation of every chord builder (interval constructors summarised by their C02 post-condition) against a meaning-keyed chord-theory oracle; table agreement; abstract evaluation of the shorthand parser on root shapes x keys, aliases, slash, polychord, NC, list and malformed classes",
         "Static: each of the shorthand builders (incl. the lambda) yields, for 7 root letters x arbitrary accidentals, exactly the (letter, semitone) list its meaning prescribes; chord_shorthand and chord_shorthand_meaning have equal key sets; from_shorthand maps every key, every min/mi/-/maj/ma alias spelling, slash basses, polychords, NC and list input to the right builder result and rejects unknown suffixes / bad roots / bad basses with the documented errors.",
